@@ -36,6 +36,8 @@ def alphabet(quick):
         ops.append(("set", "s1", o, i))
     if not quick:
         ops.append(("set", "s2", 1, 1))
+    # store_seq_num: the live counters are written as they are (what the connection does after a SequenceReset)
+    ops.append(("sseq", "s1", 7, 4))
     ops.append(("create", "s2"))
     ops.append(("reopen",))
     return ops
@@ -77,6 +79,12 @@ def model_run(ops):
                 for key in list(st["rows"]):
                     if key[0] == s and ((key[1] == "in" and key[2] >= ni) or (key[1] == "out" and key[2] >= no)):
                         del st["rows"][key]
+        elif k == "sseq":
+            _, s, o, i = op
+            if s not in st["sessions"]:
+                oc = "disabled"
+            else:
+                st["sessions"][s] = [i, o]
         elif k == "reopen":
             pass
         outcomes.append(oc)
@@ -125,6 +133,11 @@ def execute(path, ops, steps, marks):
             _, s, o, i = op
             if s in sess:
                 j.set_seq_num(sess[s], next_num_out=o, next_num_in=i)
+        elif k == "sseq":
+            _, s, o, i = op
+            if s in sess:
+                sess[s].next_num_out, sess[s].next_num_in = o, i
+                j.store_seq_num(sess[s])
         elif k == "reopen":
             names = list(sess)
             del j
